@@ -172,7 +172,7 @@ def run_lemma(case: Case):
         for label, claim in claims_lemma(V, out).items():
             case.prove(p, claim, label, replay=("smooth_coeffs", (lambda lab: lambda m: dict(label=lab, vals=model_env(m, case.inputs)))(label)))
         case.validate(p, p.value, lambda mdl: model_env(mdl, case.inputs), R.real_smooth_coeffs)
-    case.regime("smoothing fractions normalised (sum > 1)", case.reach("n", [V["hdd_k"] + V["cdd_k"] > 1, V["hdd_k"] <= 1, V["cdd_k"] <= 1]) is not None)
+    case.regime("smoothing fractions normalised (sum > 1)", case.reach("n", [V["hdd_k"] + V["cdd_k"] > 1, V["hdd_k"] >= 0, V["cdd_k"] >= 0]) is not None)
 
 
 def run_case(case: Case, name: str):
